@@ -425,6 +425,13 @@ func condAtoms(e ast.Expr) []atom {
 	return []atom{{e, true, true}}
 }
 
+// DirectMentions is Mentions without expanding locals through their definitions.
+func (f *FuncCFG) DirectMentions(n ast.Node) map[string]bool {
+	out := map[string]bool{}
+	f.mentions(n, nil, out, map[types.Object]bool{}, 6) // depth budget exhausted after the first expansion level
+	return out
+}
+
 // evalCond partially evaluates an atomic condition under assumptions on symbols: returns (value, known).
 func (f *FuncCFG) evalCond(e ast.Expr, assume map[string]bool) (bool, bool) {
 	e = ast.Unparen(e)
